@@ -25,6 +25,8 @@ Section Statement.
   Variable sdo_of : list modid -> opts -> nat.
   Variable thash : list (modid * list modid) -> modid -> nat.
   Variable ign_of : modid -> stamp -> opts -> bool.
+  Variable pkg_of : modid -> stamp -> bool.
+  Variable parent_of : modid -> option modid.
   Variable blocker : modid -> content -> bool.
 
   Definition FSOK (fs : FS) : Prop := NoDup (map fst fs).
@@ -34,10 +36,10 @@ Section Statement.
   Definition warm_equals_cold_for_all_histories : Prop :=
     forall (h : list (FS * opts)) (fs : FS) (o : opts) (n' : nat),
       (forall fs' o', In (fs', o') h -> FSOK fs') -> FSOK fs ->
-      output fs (warm content_of view_of imports probes analyze sccs_of reach sdo_of thash ign_of blocker
-                      (runs content_of view_of imports probes analyze sccs_of reach sdo_of thash ign_of blocker empty_store 0 h)
+      output fs (warm content_of view_of imports probes analyze sccs_of reach sdo_of thash ign_of pkg_of parent_of blocker
+                      (runs content_of view_of imports probes analyze sccs_of reach sdo_of thash ign_of pkg_of parent_of blocker empty_store 0 h)
                       fs o (length h))
-      = output fs (cold content_of view_of imports probes analyze sccs_of reach sdo_of thash ign_of blocker fs o n').
+      = output fs (cold content_of view_of imports probes analyze sccs_of reach sdo_of thash ign_of pkg_of parent_of blocker fs o n').
 End Statement.
 
 (* the edits of the property text, as transitions between file-system states *)
